@@ -179,6 +179,130 @@ def ray_model(f, w, pos: str, area: str) -> dict:
     return m
 
 
+def ray_sources(index: RepoIndex, fn) -> list:
+    """(kind, text) for every expression that can become an element of the list of rays
+    `fn` returns: 'ray' for compute_ray(<position>, <area>, ..) with the function's own
+    position and area (directly, through a local / nested / module helper, a conditional, or
+    a local memo filled only with such results), 'built' for a list of positions made some
+    other way; anything else is outside the grammar"""
+    mod = fn.module
+    pos_p, area_p = [a.arg for a in fn.node.args.args[:2]]
+    w = walk_function(fn.node)
+    out = []
+
+    def helper(name: str):
+        if name in w.local_funcs:
+            return w.local_funcs[name], walk_function(w.local_funcs[name])
+        h = mod.functions.get(name)
+        if h is not None:
+            return h.node, walk_function(h.node)
+        return None
+
+    def elem(e: ast.AST, wk, params: dict, depth: int = 5):
+        """classify one ray-valued expression; params maps a helper's parameter names to the
+        caller's expressions for position / area"""
+        if depth < 0:
+            raise AnalysisError('ray source too deep')
+        if isinstance(e, ast.IfExp):
+            elem(e.body, wk, params, depth)
+            elem(e.orelse, wk, params, depth)
+            return
+        if isinstance(e, ast.Name):
+            ds = wk.defs.get(e.id, [])
+            vals = [d for d in ds if d[0] == 'value']
+            if vals and len(vals) == len(ds):
+                for d in vals:
+                    elem(d[1], wk, params, depth - 1)
+                return
+            raise AnalysisError(f'ray source `{e.id}` outside the grammar')
+        if isinstance(e, ast.Subscript) and isinstance(e.value, ast.Name):
+            # a local memo: every value stored into it must be a ray
+            memo = e.value.id
+            stores = [ev_ for ev_ in wk.events if ev_.kind == 'store'
+                      and isinstance(ev_.target, ast.Subscript)
+                      and src(ev_.target.value) == memo]
+            outer = [ev_ for ev_ in w.events if ev_.kind == 'store'
+                     and isinstance(ev_.target, ast.Subscript)
+                     and src(ev_.target.value) == memo] if wk is not w else []
+            chained = [n for n in ast.walk(fn.node) if isinstance(n, ast.Assign)
+                       and len(n.targets) > 1 and any(
+                           isinstance(t, ast.Subscript) and src(t.value) == memo
+                           for t in n.targets)]
+            vals = [ev_.value for ev_ in stores + outer if ev_.value is not None] + \
+                [n.value for n in chained]
+            if not vals:
+                raise AnalysisError(f'ray memo `{memo}` is never filled (outside the grammar)')
+            for v in vals:
+                elem(v, wk, params, depth - 1)
+            return
+        if isinstance(e, ast.Call) and isinstance(e.func, ast.Name):
+            if e.func.id == 'compute_ray':
+                kw = {k.arg: k.value for k in e.keywords}
+                a0 = e.args[0] if e.args else kw.get('position')
+                a1 = e.args[1] if len(e.args) > 1 else kw.get('area')
+                ok = a0 is not None and a1 is not None and \
+                    params.get(src(a0), src(a0)) == pos_p and \
+                    params.get(src(a1), src(a1)) == area_p
+                out.append(('ray' if ok else 'built', src(e)[:100]))
+                return
+            h = helper(e.func.id)
+            if h is not None:
+                hn, hw = h
+                hp = [a.arg for a in hn.args.args]
+                sub = dict(params)
+                for p_, a_ in zip(hp, e.args):
+                    sub[p_] = params.get(src(a_), src(a_))
+                rets = [r for r in hw.events if r.kind == 'return' and r.value is not None]
+                if not rets:
+                    raise AnalysisError(f'ray helper {e.func.id} returns nothing')
+                for r in rets:
+                    elem(r.value, hw, sub, depth - 1)
+                return
+            if e.func.id in ('list', 'tuple') and len(e.args) == 1:
+                elem(e.args[0], wk, params, depth)
+                return
+        if isinstance(e, (ast.ListComp, ast.List, ast.GeneratorExp)):
+            out.append(('built', src(e)[:100]))
+            return
+        raise AnalysisError(f'ray source `{src(e)[:60]}` outside the grammar')
+
+    def rays(e: ast.AST, wk, depth: int = 5):
+        """the returned list of rays"""
+        e = wk.expand(e)
+        if isinstance(e, (ast.ListComp, ast.GeneratorExp)):
+            elem(e.elt, wk, {})
+            return
+        if isinstance(e, (ast.List, ast.Tuple)):
+            for x in e.elts:
+                elem(x, wk, {})
+            return
+        if isinstance(e, ast.Call) and isinstance(e.func, ast.Name):
+            if e.func.id in ('list', 'tuple', 'sorted') and e.args:
+                rays(e.args[0], wk, depth - 1)
+                return
+            h = helper(e.func.id)
+            if h is not None and depth > 0:
+                hn, hw = h
+                hp = [a.arg for a in hn.args.args]
+                sub = {p_: src(a_) for p_, a_ in zip(hp, e.args)}
+                for r in [r for r in hw.events if r.kind == 'return' and r.value is not None]:
+                    v = hw.expand(r.value)
+                    if isinstance(v, (ast.ListComp, ast.GeneratorExp)):
+                        elem(v.elt, hw, sub)
+                    else:
+                        raise AnalysisError(f'ray helper {e.func.id} outside the grammar')
+                return
+        raise AnalysisError(f'{fn.name}: returned rays `{src(e)[:60]}` outside the grammar')
+    rets = [r for r in w.events if r.kind == 'return' and r.value is not None]
+    if not rets:
+        raise AnalysisError(f'{fn.name}: no return')
+    for r in rets:
+        rays(r.value, w)
+    if not out:
+        raise AnalysisError(f'{fn.name}: no ray source found')
+    return out
+
+
 def run(index: RepoIndex, rep) -> None:
     rep.rule('C19.R5', 'ray samples keep the row and the column coordinate apart (axis typing, E14)', floor=1)
     from ..axes import axis_rule
@@ -261,6 +385,14 @@ def run(index: RepoIndex, rep) -> None:
         fn = index.func(RT, name)
         rep.check(reaches(fn, (name,)), 'C19.R3', RT, name, fn.node.lineno, name,
                   f'{name} does not build its rays with compute_ray', f'{name} uses compute_ray')
+        # every ray handed out is a compute_ray(position, area, ..) result: that is what keeps
+        # it inside the area, connected and ending on the border
+        kinds = ray_sources(index, fn)
+        built = [t for k, t in kinds if k == 'built']
+        rep.check(not built, 'C19.R1', RT, name, fn.node.lineno, '; '.join(built)[:200] or name,
+                  f'{name} hands out a ray that is not a compute_ray(position, area, ..) '
+                  f'result (`{built[0][:80] if built else ""}`): nothing cuts it at the area',
+                  f'{name}: {len(kinds)} ray sources are compute_ray results')
     # ---- R4
     eff = Effects(index)
     from .c03 import memo_rules
